@@ -117,6 +117,13 @@ def cases(draw):
     if pk != "none":
         labels.append("uri:" + pk)
     s = s.replace("?", "")
+    if draw(st.integers(0, 19)) == 0:
+        # low-frequency class: a '?query' tail (its application is C04's domain; here only: never raises, and an
+        # untyped string before the '?' stays untyped and verbatim)
+        k = draw(st.sampled_from(["nokey", "a", "note"] + m.keys(m.types[0])[:1]))
+        v = draw(st.sampled_from(["x", "12:30", "b:c", "*", "x y", ""]))
+        s = s + "?" + k + "=" + v
+        labels.append("query-tail")
     return {"s": s, "labels": labels, "warm": draw(st.integers(0, 3)) == 0}
 
 
@@ -140,6 +147,15 @@ def evaluate(case) -> Outcome:
         out.nontrivial = True
         return out
     got = snap(sid)
+    if "?" in s:
+        base = s.split("?", 1)[0]
+        out.label("weak-oracle:query-tail")
+        out.nontrivial = True
+        if base and ":" not in base and m.type_first(base)[0] is None:
+            exp = {"type": "", "string": s, "fields": [], "bool": False, "len": 0}
+            if got != exp:
+                out.add("C01/query-tail/untyped-string-not-kept-verbatim", f"Sid({s!r}): got {got}, expected {exp}")
+        return out
     ncolon = s.count(":")
     weak = False
     if ncolon == 0:
